@@ -20,6 +20,12 @@ CLAIMS = {
             "over a transcription of state.rs; status of every call, output snapshot and finalisation compared with the real crates on random long sequences, "
             "all sequences up to length 4 over a 14-letter alphabet, and 32-bit lengths (2^31, 2^32-1) under miri/i686.",
             TB + "miri (32-bit runs).", "Lean 4 invariant theorem + differential correspondence + exhaustive short sequences", "§4 C03"),
+    "C04": ("Theorems about the instruction lists the current trampoline source emits (regenerated into Gen/Glue.lean on every run by running the real TrampolineCodegen on a fixed family of three guest modules): for all arguments, both memories, every calling context and every provider response, "
+            "read_utf8_str moves exactly len bytes from the provider's address to the guest's buffer, get_obj_prop moves the name into the provider's allocation and returns the provider's value, output/intern strings move exactly len bytes to the provider's destination and return status/id, "
+            "log copies one or two segments exactly as the five-word plan says, every other import is the provider's function under the underscored name with the same signature. Symbolic execution in a mini-Wasm (generic theorems) + a decidable shape check discharged by the kernel on the regenerated modules. "
+            "The mini-Wasm interpreter and wasmtime are compared on every scenario of the family; ~28 generated modules (any subset/order, foreign imports, foreign memory, calls direct / wrapped / through a table) are executed in wasmtime against an ABI oracle.",
+            TB + "Mini-Wasm semantics of the 12 instructions (cross-checked against wasmtime on every run); walrus keeping every reference pointed at the replaced function is exercised, not proved, so 'all guest modules' is partial: module shapes are sampled. wasmtime, walrus, wasmparser, wat.",
+            "Lean 4 symbolic execution of regenerated glue code + kernel-decided shape check + differential execution in wasmtime", "§4 C04"),
     "C05": ("Theorem C05_read_is_tail, for every capacity > 0 and instantiated at the extracted 1001: after any sequence of messages of any lengths the two read segments, concatenated, are exactly the last min(total, capacity) bytes logged, in order "
             "(step theorem read(log l m) = lastN cap (read l ++ m) under a ring invariant, lifted by induction over histories; every prefix is a history, so it holds at every read point). C05_plan_sound: every plan covers exactly the retained tail, lies inside the buffer, segments disjoint. "
             "Plans (as offsets) and read-back segments compared with the real ring after every message, split request/copy forms included.",
@@ -28,6 +34,11 @@ CLAIMS = {
     "C06": ("Theorems over the regenerated constants: documented 32-bit layout, 64-bit layout, saturation at exactly 2^14-1 on both widths, totality of unboxing (never a crash), tag table; "
             "the constants are re-translated from core/src/read.rs on every run; box/unbox compared with the real crate on all boundary lengths x pointers, decision-relevant prefix/tag patterns, random doubles and raw patterns.",
             TB, "Lean 4 theorems over translated constants (decide +kernel) + differential correspondence", "§4 C06"),
+    "C07": ("Theorems over a model of TrampolineCodegen::new/apply driven by the tables regenerated from trampoline/src/lib.rs: no own memory => returned unchanged; more than one own memory, an unknown API-namespace name, another API version => rejected; "
+            "an accepted module keeps exactly one own memory, keeps namespace and kind of every import it keeps, and everything added is imported from the provider namespace; the emitted family has memory 0 = imported provider memory, memory 1 = guest's own. "
+            "Accept / reject class / resulting import set compared with the real tool on generated modules and all single-defect variants (no memory, two memories, unknown name, other version, wrong signature x5, foreign same name, foreign memory); outputs validated, re-trampolined (idempotence) and executed next to the original in wasmtime (own exports, data, start, globals, memory).",
+            TB + "Preservation of the guest's own behaviour depends on walrus' re-emission: validated by differential execution, not proved (partial). Wrong-signature refusal and idempotence are checked by correspondence only.",
+            "Lean 4 theorems over a model of the acceptance logic + differential runs of the real tool (wasmparser validation, wasmtime execution)", "§4 C07"),
     "C08": ("Theorems for every byte string and position: every reported string lies inside the input, accepted container lengths are bounded by the remaining bytes, "
             "every header makes progress and ends inside the input, NaN numbers and unsupported markers are read errors; the lazy reader model (which has no crash outcome) "
             "is compared with the real provider on random bytes and mutations of valid documents (truncation, flips, length tampering, splices, NaN, non-string keys) under catch_unwind.",
